@@ -66,6 +66,46 @@ theorem hour_decomposition (t : Int) : hourOf t * 3600 + (hourFraction t).1 = t 
 /-- the time of model step `t` -/
 theorem time_of_step (start step t : Int) : timeOfStep start step t = start + step * t := rfl
 
+/-- rounding an exact quotient changes nothing -/
+theorem roundDivHalfEven_exact (a b : Int) (hb : 0 < b) (h : b ∣ a) : roundDivHalfEven a b = a / b := by
+  unfold roundDivHalfEven
+  obtain ⟨k, rfl⟩ := h
+  have hr : (b * k).fmod b = 0 := by
+    rw [Int.fmod_eq_emod_of_nonneg _ (le_of_lt hb)]; exact Int.mul_emod_right b k
+  have hq : (b * k).fdiv b = b * k / b := Int.fdiv_eq_ediv_of_nonneg _ (le_of_lt hb)
+  simp only [hr, hq]
+  rw [if_pos (by omega)]
+
+/-- **the time of an integrator sub-step is exact** (since the `fix:` commit 686084e): for every start, step
+count and time step and for the sub-step fractions 0, 1/2 and 1 the time used by `velocity` is
+`start + step·t + step·tstep` to the microsecond … -/
+theorem substep_time_exact (start step t num : Int) (hn : num = 0 ∨ num = 1 ∨ num = 2) :
+    subTimeUs start step t num 2 = (start + step * t) * 1000000 + step * num * 500000 := by
+  unfold subTimeUs timeOfStep
+  rw [roundDivHalfEven_exact _ 2 (by norm_num) (by rcases hn with h | h | h <;> subst h <;> omega)]
+  omega
+
+/-- … whereas the code before the fix dropped the half second of an odd time step (dt = 45 s, tstep = 1/2:
+22 s instead of 22.5 s) -/
+theorem substep_time_old_truncates :
+    subTimeOldUs 0 45 10 1 2 = 472000000 ∧ subTimeUs 0 45 10 1 2 = 472500000 := by decide
+
+/-- the time weight is in `[0, 1)` and zero exactly at whole hours, also at microsecond resolution -/
+theorem hour_fraction_us_range (t : Int) :
+    0 ≤ (hourFractionUs t).1 ∧ (hourFractionUs t).1 < (hourFractionUs t).2 ∧
+    ((hourFractionUs t).1 = 0 ↔ 3600000000 ∣ t) := by
+  unfold hourFractionUs
+  refine ⟨Int.emod_nonneg _ (by norm_num), Int.emod_lt_of_pos _ (by norm_num), ?_⟩
+  constructor
+  · intro h; exact Int.dvd_of_emod_eq_zero h
+  · intro h; exact Int.emod_eq_zero_of_dvd h
+
+theorem hour_decomposition_us (t : Int) : hourOfUs t * 3600000000 + (hourFractionUs t).1 = t := by
+  unfold hourOfUs hourFractionUs
+  rw [Int.fdiv_eq_ediv_of_nonneg _ (by norm_num)]
+  show t / 3600000000 * 3600000000 + t % 3600000000 = t
+  omega
+
 /-- every position the grid reports as inside (`0.5 < x < xmax - 0.5`, so `1 ≤ round x ≤ xmax - 1`) gets a
 valid index into `dx` (`0 … xmax - 2`) with the clamped upper limit `xmax - 2` … -/
 theorem metric_index_in_range (xmax r : Int) (h1 : 1 ≤ r) (h2 : r ≤ xmax - 1) (hx : 2 ≤ xmax) :
